@@ -7,7 +7,7 @@
  "annotate": ["http/http.c"],
  "defines": ["VERIF_HALLOC", "HTTP_N=32", "HTTP_BODYMAX=32", "VERIF_STRMAX=8"],
  "thorough_defines": ["HTTP_N=256", "HTTP_BODYMAX=256"],
- "models": ["models/http_string.c", "models/http_env.c", "models/libc_mem.c"],
+ "models": ["models/libc_string.c", "models/http_env.c", "models/libc_mem.c"],
  "cbmc": ["--malloc-may-fail", "--malloc-fail-null", "--memory-leak-check"],
  "loop_contracts": false,
  "timeout": 600,
